@@ -34,10 +34,10 @@ LEVEL_TEXT = ("Seeded exploration of write/read interleavings over generated pro
 
 def generate(r, tier):
     big = tier == "thorough"
-    if r.random() < 0.25:
+    if r.random() < 0.33:
         # swarm focus: small programs dense in reverse dependencies (select/imply/set with option values)
         prog = kgen.gen_program(r, lo=3, hi=7, feats=["set", "setdefault", "select", "imply"] + [f for f in ("choice", "menu", "if") if r.random() < 0.3],
-                                types=[kgen.BOOL, kgen.BOOL, kgen.STRING, kgen.STRING, kgen.INT], p_rev=3.0, p_bare=0.3)
+                                types=[kgen.BOOL, kgen.BOOL, kgen.STRING, kgen.STRING, kgen.INT], p_rev=3.0, p_bare=0.4)
     else:
         prog = kgen.gen_program(r, hi=20 if big else 12)
     sc = {"prog": prog, "parser": kgen.pick_parser(r, prog, 0.05), "hash_salt": r.getrandbits(32), "salt2": r.getrandbits(32),
